@@ -150,7 +150,9 @@ pub fn run_gen(args: &Args, mut out: Out) {
             fields.push((["cookie", "Cookie"].choose(&mut r).unwrap().to_string(), COOKIES.choose(&mut r).unwrap().to_string()));
         }
         for k in 0..r.gen_range(0..9) {
-            fields.push((["x-a", "X-A", "x-b", "Accept", "host"].choose(&mut r).unwrap().to_string(), format!("v{k}")));
+            // (among the bystanders: names that merely begin or end like a framing field's name)
+            fields.push((["x-a", "X-A", "x-b", "Accept", "host", "content-length-hint", "x-content-length", "transfer-encodings", "cookies", "cookie2",
+                          "expectation", "content-typex", "x-expect"].choose(&mut r).unwrap().to_string(), format!("v{k}")));
         }
         fields.shuffle(&mut r);
         one(&mut out, sid, method, &fields, &mut r);
